@@ -223,6 +223,12 @@ def oracle(scn, sim, h, tw):
         where0["func"] = fault["at"]["func"]
 
     for st_, step_, name_ in sim.alias_violations[:1]:
+
+        if st_ == "seed":
+
+            V.append(Violation("state-mutated-in-place", f"the run wrote into '{name_}' of the Solution it was seeded with: the record of the finished run it continues has been altered", quantity=name_, seed=True))
+
+            continue
         # the runner would save exactly this array if the step were abandoned now
         V.append(Violation("state-mutated-in-place", f"update {st_}{step_} modified the array of '{name_}' held by the runner in place: a stop inside this step records a state that was never accepted", quantity=name_))
     # (5) liveness of the exclusive-create loop is enforced by the seam counter (HarnessError)
